@@ -162,6 +162,10 @@ sig_source_stop_sink(const struct video_source_s* source)
     // This is a pretty hacky way of signaling a video stream to stop
     // the sink thread.
     struct video_s* self = containerof(source, struct video_s, source);
+    // The filter writes into the sink's channel. It has just been told to
+    // stop: let it finish its flush before the sink begins its terminating
+    // flush, otherwise the last averaged frames never reach storage.
+    thread_join(&self->filter.thread);
     self->sink.is_stopping = 1;
 }
 
